@@ -468,7 +468,17 @@ def run_history(s, ctx, hseed, nsteps, force_zero_did=False, wrap=False, big=Fal
             # ---- run it on the real client (ECU = impl side) and on the model (ECU = model side)
             nfr = len(frames)
             late['on'] = rng.random() < 0.04
-            how, verdict, flags, payload, exc, r = cl.observe_outer(conn, fn)
+            run_fn = fn
+            if op[0] in ('wdbi', 'rdbi', 'wmem', 'rmem', 'block', 'pull', 'exit', 'download', 'upload') and rng.random() < 0.08:
+                # none of these services has a sub-function: inside a suppress-positive-response block (waiting for an NRC or not) they are sent
+                # unmodified and handled normally
+                wn = rng.random() < 0.6
+
+                def run_fn(fn=fn, wn=wn):
+                    with client.suppress_positive_response(wait_nrc=wn):
+                        return fn()
+                s.count('inside-suppress-block')
+            how, verdict, flags, payload, exc, r = cl.observe_outer(conn, run_fn)
             if how == 'ret' and verdict == 'ok':
                 try:
                     got = 'ok ' + dump(r)
